@@ -14,7 +14,8 @@ import re
 from lib import core
 from lib.runner import PropertyCheck
 
-IMPORTS = ('From Coq Require Import List ZArith NArith String.\nFrom Xr Require Import Base.Show Ord.Derived.\nImport ListNotations.\nOpen Scope Z_scope.\n'
+IMPORTS = ('From Coq Require Import List ZArith NArith String Ascii.\nFrom Xr Require Import Base.Show Ord.Derived Ord.Pad.\nImport ListNotations.\nOpen Scope Z_scope.\n'
+           'Fixpoint show_codes (l : list N) : string := match l with nil => EmptyString | c :: r => String (ascii_of_N c) (show_codes r) end.\n'
            'Definition show_c (c : comparison) : string := match c with Lt => "-1"%string | Eq => "0"%string | Gt => "1"%string end.\n')
 
 
@@ -130,6 +131,7 @@ def ref_format_int(x, fill, align, sign, alt, zero, width, grouping, mode):
         sp += '0' + mode
     if zero and align is None:
         fill, align = '0', '='
+    ref_format_int.parts = (sp, body, fill or ' ', align or '>')
     if width is None:
         return sp + body
     fill = fill or ' '
@@ -413,6 +415,7 @@ class C19(PropertyCheck):
                 distinct.add(job['src'])
         # ------------------------------------------------------------------ (c) format
         fjobs, fwant = [], []
+        pad_terms, pad_idx = [], []
         for i in range(150 if tier == 'quick' else 1500):
             x = rng.choice([0, 1, 5, 42, 255, 1234567, -1, -42, -1234567, 2 ** 63, -(2 ** 63), 10 ** 20])
             align = rng.choice([None, None, '>', '<', '^', '='])
@@ -430,6 +433,12 @@ class C19(PropertyCheck):
             xs_ = str(x) if x >= 0 else f'({x})'
             fjobs.append({'id': f'i{i}', 'src': f'fn c0() -> str {{ format({xs_}, "{spec}") }}\nfn c1() -> bool {{ format({xs_}, "") == to_str({xs_}) }}', 'calls': ['c0', 'c1']})
             fwant.append(('int', spec, ('s:' + want) if want is not None else 'E:invalid format spec'))
+            sp_, body_, fill_, al_ = ref_format_int.parts
+            if want is not None and width is not None and fill_.isascii():
+                codes = lambda t: '[' + '; '.join(f'{ord(ch)}%N' for ch in t) + ']'
+                alc = {'>': 'ARight', '<': 'ALeft', '^': 'ACenter', '=': 'AAfterSign'}[al_]
+                pad_terms.append(f'show_codes (pad {ord(fill_)}%N {alc} {width} {codes(sp_)} {codes(body_)})')
+                pad_idx.append(len(fjobs) - 1)
         for i in range(80 if tier == 'quick' else 800):
             s = rng.choice(['', 'a', 'ab', 'héé', 'é', '👋x', 'hello'])
             align = rng.choice([None, '>', '<', '^'])
@@ -439,6 +448,15 @@ class C19(PropertyCheck):
             fjobs.append({'id': f't{i}', 'src': f'fn c0() -> str {{ format("{s}", "{spec}") }}\nfn c1() -> bool {{ format("{s}", "") == to_str("{s}") }}', 'calls': ['c0', 'c1']})
             fwant.append(('str', spec, ('s:' + ref_format_str(s, fill, align, width)) if (fill is None or fill.isascii() or width is None) else 'E:invalid format spec'))
         fres = core.run_harness(ctx['binary'], fjobs, os.path.join(workdir, 'hf'), timeout=300)
+        pmodel = core.coq_eval(pad_terms, self.imports, os.path.join(workdir, 'coqp'), shard_size=200, timeout=600)
+        for k_, m_ in zip(pad_idx, pmodel):
+            n_eval += 1
+            if m_ is None:
+                raise core.CheckError('pad model evaluation failed')
+            got_ = fres[fjobs[k_]['id']]['calls'][0]
+            if got_ != 's:' + m_:
+                violations.append({'what': 'format: the padded text differs from the padding rule of the specifier grammar (proved model: exactly the width, only fill characters added)',
+                                   'case': {'src': fjobs[k_]['src']}, 'impl': got_, 'model': m_})
         for job, (kind, spec, want) in zip(fjobs, fwant):
             r = fres.get(job['id'])
             n_eval += 1
